@@ -322,6 +322,25 @@ fn main() {
     println(7 * 0, 0 * 7, 7 * 1, 0 * 0);
 }
 `},
+		{"small:conditions-that-are-casts", `fn busy(n: int) -> str { if n as bool { "busy" } else { "idle" } }
+fn main() {
+    for n in 0..3 {
+        if (n as float / 2.0) as int as bool { println("f", n); } else { println("not f", n); }
+    }
+    println(busy(5), busy(-1), busy(0));
+}
+`},
+		{"small:conditions-that-are-calls-members-and-indices", `fn odd(n: int) -> bool { n % 2 == 1 }
+fn main() {
+    let flags = [true, false];
+    let o = new { up: true };
+    for n in 0..2 {
+        if flags[n] { println("flag", n); } else { println("no flag", n); }
+        if !odd(n) { println("!odd", n); } else { println("!!odd", n); }
+        if o.up { println("up", n); } else { println("down", n); }
+    }
+}
+`},
 		{"small:comparisons-in-every-position", `fn le(a: int, b: int) -> bool { a * 2 <= b * 3 }
 fn main() {
     let a = 2;
